@@ -23,6 +23,7 @@ type Mutant struct {
 
 // SelfTests runs the mutants of a property (thorough tier only).
 func SelfTests(c *Ctx, prop string) {
+	runFixtures(c, prop)
 	if !c.Thorough() || c.Overlay != nil {
 		return
 	}
